@@ -97,7 +97,13 @@ def c07_runs(tier):
     return per_method('mix', [0, 3] if q else [0, 1, 2, 3],
                       ['C07.returned-by-quit', 'C07.returned-when-empty', 'C07.register_try-fails'],
                       K=1, T=1, J=1, R=3, acts=A_UNREG | A_REG | A_TIMER | A_TASK | A_QUIT | A_TRY, A=1,
-                      L=2 if q else 3, symtruth=0, patterns=2, faults=1, setup_actions=1)
+                      L=2 if q else 3, symtruth=0, patterns=2, faults=1, setup_actions=1) + [
+        mt_run('event-register-fails.poll', 'harness/event.c',
+               ['C07.event-register-fails', 'C07.loop-returns-after-failed-registration'], preempt=0, regfail=1,
+               method=3, P=0),
+        mt_run('event-register-fails.ppoll', 'harness/event.c',
+               ['C07.event-register-fails', 'C07.loop-returns-after-failed-registration'], preempt=0, regfail=1,
+               method=2, P=0)]
 
 
 def timers_run(name, defs=(), covers=(), **params):
@@ -296,6 +302,58 @@ def c13_runs(tier):
     return [x for x in work_runs(tier) if x['name'] not in ('null-pool', 'saturated.max1')]
 
 
+def c15_runs(tier):
+    q = tier == 'quick'
+    r = []
+    fdcov = ['fd.in-handler-ran', 'env.eintr-injected']
+    # (b) EINTR at any wait, crossed with the four methods
+    for m in range(4):
+        r += per_method('eintr.fd', [m], fdcov, K=1 if q else 2, R=2, acts=A_UNREG | A_SETH, A=1, L=1, symtruth=1,
+                        patterns=2, faults=2, eintr=1 if q else 2)
+    r += per_method('eintr.timers', [0, 3] if q else [0, 1, 2, 3], ['timer.handler-ran', 'env.eintr-injected'],
+                    K=1, T=1, R=4, acts=A_TIMER, A=1, L=1, symtruth=0, symtime=2, patterns=1, faults=2, eintr=1)
+    r += per_method('eintr.tasks', [1], ['task.handler-ran', 'env.eintr-injected'], K=1, T=0, J=2, R=3, acts=A_TASK,
+                    A=1, L=2, symtruth=0, patterns=1, faults=2, eintr=1)
+    # (c) optional calls missing from the first call, disappearing later, or forbidden
+    r += per_method('pwait2-missing.fd', [0, 1], ['fd.in-handler-ran'], K=1 if q else 2, R=2, acts=A_SETH, A=1, L=1,
+                    symtruth=1, patterns=2, faults=4)
+    r += per_method('pwait2-missing.timers', [1], ['timer.handler-ran'], K=1, T=1 if q else 2, R=3 if q else 4,
+                    acts=A_TIMER, A=1, L=1, symtruth=0, symtime=2, patterns=1, faults=4)
+    r += per_method('timerfd-missing', [0], ['timer.handler-ran'], K=1, T=2, R=7, acts=0, A=0, L=0, symtruth=0,
+                    symtime=2, patterns=1, faults=8)
+    r += per_method('ppoll-missing', [2], ['fd.in-handler-ran', 'timer.handler-ran'], K=1, T=1, R=2 if q else 3,
+                    acts=A_SETH | A_TIMER, A=1, L=1, symtruth=0 if q else 1, symtime=2, patterns=2, faults=16)
+    r += per_method('epoll_create1-missing', [0], ['fd.in-handler-ran'], K=1, R=2, acts=A_SETH, A=1, L=1, symtruth=1,
+                    patterns=2, faults=32)
+    # eventfd family: absent from the start / disappearing at a later call; both iv_event transports
+    r.append(mt_run('eventfd-disappears.rawevent', 'harness/eventraw.c',
+                    ['env.syscall-disappears-mid-run', 'raw.handler-ran', 'raw.quiescent'], preempt=1 if q else 2,
+                    R=2, T=1, N=2, cfg=3))
+    r.append(mt_run('eventfd-missing.epoll-kick', 'harness/event.c', ['event.cross-thread-post-delivered'],
+                    preempt=2, E=2, P=2, Q=1, method=1, noeventfd=1, hb=0))
+    r.append(mt_run('eventfd-missing.rawevent-transport', 'harness/event.c', ['event.cross-thread-post-delivered'],
+                    preempt=2, E=2, P=2, Q=1, method=2, noeventfd=1, hb=0))
+    # pipe2 / splice
+    r.append(pump_run('pump.no-splice-no-pipe2', 4, ['pump.done'], N=3, B=3, splice=0, relay=1, nopipe2=1))
+    r.append(pump_run('pump.splice-no-pipe2', 4, ['pump.done'], N=3, B=3, splice=1, relay=1, nopipe2=1, pipecap=3))
+    return r
+
+
+def c18_runs(tier):
+    q = tier == 'quick'
+    defs = ['-DIVYKIS_VERIF_TIMER_SPLIT_BITS=2', '-DIVYKIS_VERIF_PUMP_BUF_SIZE=8']
+    cv = ['lifecycle.complete', 'lifecycle.main-thread-cycle-clean', 'lifecycle.thread-with-deinit-clean',
+          'lifecycle.thread-without-deinit-clean', 'lifecycle.deinit-with-timers-registered']
+    r = []
+    for m in range(4):
+        x = mt_run('cycles.' + METHODS[m], 'harness/lifecycle.c', cv, preempt=1 if q else 2, method=m,
+                   cycles=2 if q else 3, timers=20, parts=127, noeventfd=1 if m == 3 else 0,
+                   splice=0 if m == 2 else 1)
+        x['defs'] = defs
+        r.append(x)
+    return r
+
+
 def c14_runs(tier):
     r = []
     sig = [x for x in c10_runs(tier, hb=1) if x['name'] in ('two-threads', 'one-thread.I2')]
@@ -487,6 +545,31 @@ CHECKS = {
             'bounds': {'quick': 'the quick scenario programs of C08, C09, C10 (two), C11 (one), C12/C13', 'thorough': 'their thorough versions'},
             'outside': 'stack objects shared between threads; weak memory; one-way feature flags are whitelisted: '
                        + ', '.join(RACE_WHITELIST),
+            'assumptions': ENV_ASSUMPTIONS},
+    'C15': {'runs': c15_runs,
+            'explanation': 'C15: the scenario programs of C02/C04/C06 (loop harness), C08/C09 (event harnesses) and C17 '
+                           '(pump) re-run with the fault plan on: (a) every method exclusion list reachable on Linux; '
+                           '(b) each wait failing with EINTR at a call chosen by forking within a budget; (c) '
+                           'epoll_pwait2 ENOSYS/EPERM/disappearing, timerfd_create ENOSYS, ppoll ENOSYS/disappearing, '
+                           'epoll_create1 ENOSYS, eventfd2/eventfd ENOSYS from the start or from a later call, pipe2 '
+                           'ENOSYS, splice ENOSYS; the oracles are those of the underlying property, unchanged.',
+            'bounds': {'quick': 'EINTR budget 1 per run; each optional call absent from the first call, and "may '
+                                'disappear at any later call" for epoll_pwait2, ppoll, eventfd2/eventfd; base scenarios '
+                                'at reduced quick bounds', 'thorough': 'EINTR budget 2, four methods everywhere'},
+            'outside': 'EINTR from epoll_ctl/read/write (the model supports it, not enabled in these runs); '
+                       'timerfd_create disappearing in a second thread (D3 hypothesis, not built); fault combinations',
+            'assumptions': ENV_ASSUMPTIONS},
+    'C18': {'runs': c18_runs,
+            'explanation': 'C18: (a) the memory monitor (out-of-bounds, use-after-free/return, double free, use of '
+                           'uninitialised values, leaks at the end) is on in every run of every check; (b) this check: '
+                           'init/use/deinit cycles in the main thread and in short-lived threads with and without '
+                           'iv_deinit (key destructor path), using descriptors, timers across radix levels (2-bit hook), '
+                           'events, raw events, pump buffers, signal interest, a child thread; after every cycle no '
+                           'library heap block, descriptor or thread may be left; registered descriptors are '
+                           'non-blocking and close-on-exec.',
+            'bounds': {'quick': '2 cycles x (main thread + thread) per method, 20 timers, preemption bound 1',
+                       'thorough': '3 cycles, bound 2'},
+            'outside': 'long-run growth beyond the cycles executed; kqueue/dev-poll/port back ends',
             'assumptions': ENV_ASSUMPTIONS},
     'C16': {
         'runs': avl_runs,
